@@ -39,6 +39,9 @@ theorem fromPasswordRc4_returns {P : Prims} {H : Hashes} (hp : PrimsAgree P H) (
   by_cases h0 : keyBits / 8 = 0
   · rw [if_pos h0]; simp
   · rw [if_neg h0]
+    by_cases h32 : keyBits / 8 > 32
+    · rw [if_pos h32]; simp
+    rw [if_neg h32]
     have hks : 1 ≤ keyBits / 8 := Nat.pos_of_ne_zero h0
     obtain ⟨key, hkey, hlen⟩ := keyDerivUser_ok hp hw level (keyBits / 8) d id pass
     have hv1 : validKey (key.take (min (keyBits / 8) 16)) := by
